@@ -120,6 +120,22 @@ impl FileSystem {
         self.resolve_abs_path(file_path)
     }
 
+    /// `KeyTooLongError` if the side files of the object (metadata, checksums) cannot be named:
+    /// their names hold the encoded bucket and key and have to fit into a file name
+    pub(crate) fn check_side_file_names(&self, bucket: &str, key: &str) -> S3Result<()> {
+        const NAME_MAX: usize = 255;
+        let paths = [
+            self.get_metadata_path(bucket, key, None)?,
+            self.get_internal_info_path(bucket, key)?,
+        ];
+        for path in paths {
+            if path.file_name().is_some_and(|name| name.len() > NAME_MAX) {
+                return Err(s3_error!(KeyTooLongError));
+            }
+        }
+        Ok(())
+    }
+
     /// load metadata from fs
     pub(crate) async fn load_metadata(&self, bucket: &str, key: &str, upload_id: Option<Uuid>) -> Result<Option<dto::Metadata>> {
         let path = self.get_metadata_path(bucket, key, upload_id)?;
